@@ -13,7 +13,9 @@ R16a canonical signature components: every signature component (parameter other 
 R16b sibling agreement: the Schnorr verifier recomputes the commitment from g^s * y^-c and compares
      the challenge with the hash of (message, commitment); the DSA verifier compares r with the
      recomputed r' reduced modulo q.
-Not decided: that a completed multi-party signing run outputs a valid signature, and that all
+R16c (Schnorr signing, one necessary shape condition of sentence 1): the output s is the sum modulo q of the additive
+     shares over *all* members of the key's qualified set QUAL.
+Not decided: that a completed multi-party signing run outputs a valid signature (beyond R16c), and that all
 honest parties obtain the same one (relations over executions)."""
 from . import invcheck
 
@@ -66,14 +68,55 @@ def run(ctx):
                         'representative %s + kq of an accepted value is accepted as well' % (
                             p['n'], 'no upper bound against q' if not hi else 'no lower bound', p['n']), f)
     ctx.floor('R16a', na, 4)
+    r16c(ctx)
+
+
+def r16c(ctx):
+    """combination of the Schnorr signature value: y is the product of the y_i of *all* members of the key's qualified set
+    QUAL, so s = k + cx needs the additive share s_i of every member of QUAL -- contributed by the party itself or
+    computed from its reconstructed z_i when it is missing from the signing run.  The value written to the output `s`
+    must therefore be (acc + s_i[..]) mod q with an accumulator that starts at 0 and is carried by a loop over the member
+    set QUAL (not over the parties that happened to take part in this run)."""
+    prog = ctx.prog
+    f = prog.fn('GennaroJareckiKrawczykRabinNTS::Sign', 0)
+    a = ctx.analysis(f)
+    T = a.T
+    sp = [p for p in f['params'] if p['n'] == 's']
+    if not sp:
+        from ..facts import AnalysisBroken
+        raise AnalysisBroken('output parameter s of GennaroJareckiKrawczykRabinNTS::Sign not found')
+    loc = ('v', sp[0]['id'], 's')
+    q = T.mk('this', 'q')
+    ok = False
+    seen = None
+    for nid, ev in a.all_events('write'):
+        if ev[1] != loc:
+            continue
+        vn = T.node(ev[2])
+        if vn[0] == 'mod' and vn[2] == q and T.node(vn[1])[0] == 'add':
+            acc = [x for x in T.node(vn[1])[1:] if T.op(x) == 'phi' and T.node(x)[2] == loc]
+            if len(acc) == 1:
+                lb = a.loop_bound.get(T.node(acc[0])[1])
+                seen = T.show(lb[0], 3) if lb else 'no counting loop'
+                over_qual = bool(lb) and T.contains(lb[0], lambda z: z == ('this', 'QUAL')) and T.op(lb[0]) == 'mc' and T.node(lb[0])[1].split('::')[-1] == 'size' and \
+                    T.node(lb[0])[2] == T.mk('this', 'QUAL')
+                zero = any(T.is_int(x, 0) for x in T.phi_src.get((T.node(acc[0])[1], T.node(acc[0])[2]), ()))
+                if over_qual and zero:
+                    ok = True
+    (ctx.ok if ok else ctx.bad)('R16c', 'R16c:GennaroJareckiKrawczykRabinNTS::Sign:s', 's = sum over all members of QUAL of the additive shares s_i, modulo q' if ok else
+                                'the signature value s is not accumulated as 0 + sum of s_i over all members of the key\'s qualified set QUAL modulo q (loop range: %s): '
+                                'when a key holder is missing from the signing run its reconstructed share c*z_j is left out and every honest party outputs the same '
+                                'invalid signature' % seen, f)
+    ctx.floor('R16c', 1, 1)
 
 
 EXPLANATION = ("Static guard inventory of the two signature verifiers the library offers for its threshold schemes (Schnorr: "
                "GennaroJareckiKrawczykRabinNTS::Verify, DSA: CanettiGennaroJareckiKrawczykRabinDSS::Verify): the accepting exits are guarded "
                "by the frozen inventory (verification equation abstracted to the inputs it relates, range tests, invertibility), and every "
                "signature component is either compared as a whole with a recomputed reduced value or carries the range facts 0 <= x < q, so "
-               "that no non-canonical representative is accepted. Decides only the last sentence of C16 (the library's verifiers accept "
-               "exactly what equation and range conditions accept); validity and agreement of the outputs of a multi-party signing run "
-               "are relations over executions and are not decided.")
+               "that no non-canonical representative is accepted. Decides the last sentence of C16 (the library's verifiers accept "
+               "exactly what equation and range conditions accept) and one necessary shape condition of the first: the threshold Schnorr signer "
+               "combines s as the sum modulo q of the additive shares of all members of the key's qualified set. Validity and agreement of the "
+               "outputs of a multi-party signing run are otherwise relations over executions and are not decided.")
 ASSUMPTIONS = ["the first mpz parameter of a verifier is the message, the others are the signature components",
                "the hash function is collision resistant (not checked)"]
